@@ -26,6 +26,15 @@ func (e *Exec) evalCall(st *State, call *ast.CallExpr) []Term {
 		e.assertFor[call] = true
 	}
 	res := e.evalCallInner(st, call)
+	if len(e.frames) == 1 && e.spec == 0 && e.lockObj != nil && !st.Dead() {
+		if text, d := lockCall(e.frames[0].info, call); d != 0 {
+			if o := e.lockObj[text]; o != nil {
+				if v, ok := st.Vars[o]; ok {
+					st.Vars[o] = app(SInt, "+", v, Int(int64(d)))
+				}
+			}
+		}
+	}
 	if top && !st.Dead() {
 		if o := e.calledObj[name]; o != nil {
 			st.Vars[o] = True
